@@ -53,11 +53,13 @@ def validate_nonce(request, exists_nonce, required=False):
     nonce = request.data.get("nonce")
     if not nonce:
         if required:
-            raise InvalidRequestError("Missing 'nonce' in request.")
+            raise InvalidRequestError(
+                "Missing 'nonce' in request.", state=request.state
+            )
         return True
 
     if exists_nonce(nonce, request):
-        raise InvalidRequestError("Replay attack")
+        raise InvalidRequestError("Replay attack", state=request.state)
 
 
 def generate_id_token(
